@@ -85,6 +85,7 @@ func (s *server) HandleRequest(ctx *types.HttpContext) {
 				if transport := socket.Transport(); transport.HandlesUpgrades() {
 					s.emitAbortRequest(ctx, BAD_REQUEST, map[string]any{"name": "TRANSPORT_MISMATCH", "transport": ctx.Query().Peek("transport"), "previousTransport": transport.Name()})
 				} else {
+					vhook.Yield("server.HandleRequest.loaded")
 					transport.OnRequest(ctx)
 				}
 			} else {
